@@ -138,19 +138,24 @@ def run(ctx):
     ctx.require_coverage(r, ['XDecode', 'XEncode', 'XEncodeValue', 'XEncodeCE', 'XEncodeValueCE'])
     rh = ctx.tlc('MC_Uri', ctx.pick('MC_UriHostQ.cfg', 'MC_UriHost.cfg'), coverage=True, workers=6, timeout=600)
     ctx.require_coverage(rh, ['XParseHost'])
+    rc = ctx.tlc('MC_Uri', 'MC_UriCtl.cfg', coverage=True, workers=6, timeout=600)      # LF / CR / TAB in every position
+    ctx.require_coverage(rc, ['XDecode', 'XEncode', 'XEncodeValue', 'XEncodeCE', 'XEncodeValueCE'])
     bad = ctx.tlc('MC_Uri', 'MC_UriBad.cfg', must_hold=False, count=False, workers=2, timeout=120)
     if bad.violated != 'EncodeOutputAlphabet':
         raise MachineryError('vacuity: the lower-case-escape design was not rejected (%r)' % (bad.violated,))
     ctx.exhaustive = True
     ctx.progress('leg M done: %d + %d states, %d + %d cases exported'
                  % (r.distinct, rh.distinct, len(r.json), len(rh.json)))
-    cases = r.json + rh.json
+    cases = r.json + rc.json + rh.json
+    if len(rc.json) < rc.distinct * 6 // 7:
+        raise MachineryError('Emit produced %d cases for %d states (control characters)' % (len(rc.json), rc.distinct))
     if len(r.json) < r.distinct * 6 // 7 or not rh.json:
         raise MachineryError('Emit produced %d cases for %d states' % (len(r.json), r.distinct))
 
     suspects = []          # events where code and spec differ; TLC names the clause
     blocks = {True: [], False: []}      # closed decode blocks per plus flag: (s, bytes)
     encblocks = {'encode': [], 'encode_value': []}
+    ctlblocks = {'encode': [], 'encode_value': []}      # enumerated blocks ending in a control character
     for c in cases:
         s = txt(c['s'])
         fn = c['fn']
@@ -164,6 +169,8 @@ def run(ctx):
                 blocks[c['plus']].append((s, bytes(c['bytes'])))
         elif fn in encblocks and s:
             encblocks[fn].append((s, want))
+            if s[-1] in '\n\r\t':
+                ctlblocks[fn].append((s, want))
         defaults = (None, BIG_DEFAULT) if fn == 'parse_host' else (None,)
         for d in defaults:
             e = call(fn, s, c['plus'], d)
@@ -216,6 +223,8 @@ def run(ctx):
         if i % 4 == 0:
             fn = ('encode', 'encode_value')[(i >> 2) & 1]
             ps = [rng.choice(encblocks[fn]) for _ in range(rng.choice((3, 10, 60, 600)))]
+            if ctlblocks[fn] and rng.random() < 0.6:          # ... ending in one LF, CR LF, LF LF, TAB
+                ps.append(rng.choice(ctlblocks[fn]))
             s = ''.join(p[0] for p in ps)
             want = ''.join(p[1] for p in ps)
             ctx.case({'fn': fn, 'len': len(s), 'head': s[:40]}, nontrivial=nontrivial(s), key=(fn, False, s))
@@ -283,9 +292,13 @@ def run(ctx):
             return ''.join(out)
         return ''.join(rng.choice(base) for _ in range(rng.randint(2, max(2, n))))       # the model's alphabet, longer
 
+    endings = ('\n', '\r\n', '\n\n', '\r', '\t', '\n\r', '%0A\n', ' \n')
+
     events = {}
     for i in range(nrand):
         s = rand_string()
+        if i % 4 == 0:                   # ... ending in exactly one LF, in CR LF, in LF LF, ...
+            s = s.rstrip('\n\r\t') + endings[(i // 4) % len(endings)]
         for fn in FNS:
             for plus in ((False, True) if fn == 'decode' else (False,)):
                 key = (fn, plus, s)
